@@ -473,7 +473,7 @@ class CircuitOperation(ops.Operation):
     def __repr__(self):
         args = f'\ncircuit={self.circuit!r},\n'
         if self.repetitions != 1:
-            args += f'repetitions={self.repetitions},\n'
+            args += f'repetitions={proper_repr(self.repetitions)},\n'
         if self.qubit_map:
             args += f'qubit_map={proper_repr(self.qubit_map)},\n'
         if self.measurement_key_map:
